@@ -79,6 +79,10 @@ def make (c):
             if g ['k'] == 'w' and g.get ('tag') is not None and g ['n'] >= 2 and rt.random () < 0.3:
                 sl = float (np.linalg.norm (np.array (g ['p2']) - np.array (g ['p1'])) / g ['n'])
                 g ['taper'] = [int (rt.integers (1, 4)), (None if rt.random () < 0.5 else 1.5 * sl), None]
+        # the whole structure moved to coordinates of a map (hundreds of kilometres from the origin): ends that are
+        # apart stay apart, ends that meet still meet
+        if rt.random () < 0.2:
+            spec ['tr'] = [['translate', 1.0, [448000.0, 5411000.0, 0.0], None]]
         return spec
     if c ['fam'] == 'ring':
         return make_ring (c)
